@@ -81,6 +81,20 @@ static int count_fds (void)
   return n - 1;
 }
 
+/* C09 clause: a compiled function that is handed out lies inside a mapping the process may execute (and its write alias inside a writable one) */
+static int addr_has_perm (const void *addr, size_t len, char perm)
+{
+  FILE *f = fopen ("/proc/self/maps", "r"); char line[512]; int ok = 0;
+  if (!f) return -1;
+  while (fgets (line, sizeof line, f)) {
+    unsigned long lo, hi; char pr[8];
+    if (sscanf (line, "%lx-%lx %7s", &lo, &hi, pr) != 3) continue;
+    if ((unsigned long) addr >= lo && (unsigned long) addr < hi && len <= hi - (unsigned long) addr && strchr (pr, perm)) { ok = 1; break; }
+  }
+  fclose (f);
+  return ok;
+}
+
 static int backup_calls;
 static void backup_fn (OrcExecutor *ex)
 {
@@ -154,7 +168,7 @@ int main (int argc, char **argv)
   static OrcProgram *held_p[MAXHELD]; static OrcCode *held_c[MAXHELD];
   const char *plan = getenv ("FAULT_PLAN");
   int calls_after_init, fds0 = -1, fds_early = -1, fds_end = -1, mismatches = 0, native_runs = 0, backup_bad = 0, emu_runs = 0, no_orccode = 0;
-  int results[3] = { 0, 0, 0 };
+  int results[3] = { 0, 0, 0 }, exec_checked = 0, exec_not_executable = 0, write_not_writable = 0;
   if (plan && *plan) {
     if (!strcmp (plan, "all")) plan_all = 1; else if (!strcmp (plan, "all-mkstemp")) plan_all_mkstemp = 1;
     else if (!strcmp (plan, "all-filemmap")) plan_all_filemmap = 1; else if (!strcmp (plan, "all-anonmmap")) plan_all_anon = 1;
@@ -186,6 +200,19 @@ int main (int argc, char **argv)
     }
     results[ORC_COMPILE_RESULT_IS_SUCCESSFUL (res) ? 0 : ORC_COMPILE_RESULT_IS_FATAL (res) ? 2 : 1]++;
     if (ORC_COMPILE_RESULT_IS_FATAL (res) || !p->orccode) { no_orccode++; if (ex) orc_executor_free (ex); orc_program_free (p); if (q) orc_program_free (q); continue; }
+    if (ORC_COMPILE_RESULT_IS_SUCCESSFUL (res) && p->orccode->exec && p->orccode->code_size > 0 && r < 64) {
+      /* before anything is run: where does the function that will be called live? */
+      exec_checked++;
+      if (addr_has_perm ((void *) p->orccode->exec, p->orccode->code_size, 'x') == 0) exec_not_executable++;
+      if (p->orccode->code && addr_has_perm (p->orccode->code, p->orccode->code_size, 'w') == 0 && addr_has_perm (p->orccode->code, p->orccode->code_size, 'x') == 0) write_not_writable++;
+      if (exec_not_executable) {
+        /* running it would only crash: report and stop here */
+        printf ("{\"variant\":%d,\"reps\":%d,\"calls\":%d,\"calls_after_init\":%d,\"injected\":%d,\"injlog\":\"%s\",\"calllog\":\"\",\"ok\":0,\"nonfatal\":0,\"fatal\":0,\"mismatches\":0,\"native_runs\":0,\"emulated_runs\":0,\"backup_calls\":0,\"backup_bad\":0,\"no_orccode\":0,\"held\":0,\"held_reruns\":0,\"fds0\":-1,\"fds_early\":-1,\"fds_end\":-1,\"exec_checked\":%d,\"exec_not_executable\":%d,\"write_not_writable\":%d,\"exec\":\"%p\"}\n",
+            variant, reps, ncalls, calls_after_init, ninjected, injlog, exec_checked, exec_not_executable, write_not_writable, (void *) p->orccode->exec);
+        fflush (stdout);
+        _exit (0);
+      }
+    }
     for (i = 0; i < 256; i++) { a[i] = (short) (i * 517 - 9000 + r); b[i] = (short) (i * 33 + 5); dn[i] = de[i] = 0x1111; }
     if (!ex) ex = orc_executor_new (p);
     orc_executor_set_n (ex, n); orc_executor_set_array (ex, ORC_VAR_S1, a); orc_executor_set_array (ex, ORC_VAR_S2, b);
@@ -244,8 +271,8 @@ int main (int argc, char **argv)
   }
   fds_end = count_fds ();
   printf ("{\"variant\":%d,\"reps\":%d,\"calls\":%d,\"calls_after_init\":%d,\"injected\":%d,\"injlog\":\"%s\",\"calllog\":\"%.600s\",\"ok\":%d,\"nonfatal\":%d,\"fatal\":%d,"
-      "\"mismatches\":%d,\"native_runs\":%d,\"emulated_runs\":%d,\"backup_calls\":%d,\"backup_bad\":%d,\"no_orccode\":%d,\"held\":%d,\"held_reruns\":%d,\"fds0\":%d,\"fds_early\":%d,\"fds_end\":%d}\n",
+      "\"mismatches\":%d,\"native_runs\":%d,\"emulated_runs\":%d,\"backup_calls\":%d,\"backup_bad\":%d,\"no_orccode\":%d,\"held\":%d,\"held_reruns\":%d,\"fds0\":%d,\"fds_early\":%d,\"fds_end\":%d,\"exec_checked\":%d,\"exec_not_executable\":%d,\"write_not_writable\":%d}\n",
       variant, reps, ncalls, calls_after_init, ninjected, injlog, calllog, results[0], results[1], results[2], mismatches, native_runs, emu_runs, backup_calls, backup_bad, no_orccode, nheld, held_reruns,
-      fds0, fds_early, fds_end);
+      fds0, fds_early, fds_end, exec_checked, exec_not_executable, write_not_writable);
   return 0;
 }
